@@ -470,7 +470,7 @@ namespace riddle
             if (str += ch; (ch = next_char()) != -1 && is_id_part(ch))
                 return finish_id(str);
             else
-                return mk_token(OR_ID);
+                return mk_token(VOID_ID);
         }
         case 'a':
         case 'd':
